@@ -401,16 +401,27 @@ class StartRequests(Observer):
             base = self.single_plan_base[key] = (node, on_node, self.sim.now_us)
         if overlap or base[0] != node or self.sim.now_us - base[2] > 300 * US:
             return
-        counted = {(q, i) for (q, i) in on_node if (q, i) in base[1] or q.split(':')[0] == app}
+        # (the application's own processes: those this plan has requested; a copy started meanwhile by another requester or
+        # by hand is another plan's)
+        own = {(r['ns'], r['target']) for r in self.requests if r['s'] == s.nick and r['inc'] == s.incarnation
+               and r['app'] == app and r['t_us'] >= base[2]}
+        counted = {(q, i) for (q, i) in on_node if (q, i) in base[1] or (q, i) in own}
         running_load = sum(loads[q] for q, _i in counted)
         pend_load = sum(loads.get(r['ns'], 0) for r in pend if r.get('app') == app and self._node_of(r['target']) == node)
         total = running_load + pend_load + loads.get(ns, 0)
         self._probe('single_plan_load_checked')
         if total > 100:
+            # recorded finding: the load of a non-distributed application is the sum over its start-SEQUENCED processes
+            # (get_start_sequence_expected_load); a program with start_sequence 0 started on demand is not in it, and the
+            # commands of a non-distributed application are not load-checked again when they are requested
+            from oracles.stops import _rule_of
+            _a, prog_doc = _rule_of(self.sim.config, ns)
+            on_demand = prog_doc is None or not (prog_doc.get('start_sequence') or 0)
             self.v('C04', 'node-overload', dict(detail, node=node, distribution=distribution, load=loads.get(ns, 0),
                                                 counted={'%s@%s' % k: loads[k[0]] for k in sorted(counted)},
-                                                own_pending=pend_load),
-                   'node-overload:non-distributed-plan')
+                                                own_pending=pend_load, on_demand=on_demand),
+                   'node-overload:non-distributed-plan' + (':on-demand-process-not-in-application-load' if on_demand
+                                                           else ''))
 
     # --- C03 ------------------------------------------------------------------------------------
     def _truly_running(self, ns):
@@ -559,7 +570,9 @@ class StartRequests(Observer):
         ab = self.aborted.get((s.nick, s.incarnation, app))
         if ab is not None:
             t_ab, level, strategy, q = ab
-            plan_restart = max(self.ops.get((s.nick, app), (-1,))[0], t_dist if t_dist is not None else -1,
+            # (a new plan is an ENTRY in DISTRIBUTION, not a re-publication of the state while the instance stays in it)
+            plan_restart = max(self.ops.get((s.nick, app), (-1,))[0],
+                               self.distribution_first.get((s.nick, s.incarnation), -1),
                                self.stops.get((s.nick, s.incarnation, app), -1),
                                self.handler_plans.get((s.nick, s.incarnation, app), -1))
             # a restart of the application accepted around the failure: its start phase is a new plan that begins when the
